@@ -157,6 +157,8 @@ def ratio_guard(fn, den):
         if op != "<" or a not in floors:
             return False
         j = f.strip(c)
+        while f.k(j) == "Un" and f.nodes[j]["op"] == "!":
+            j = f.strip(f.ch(j)[0])
         # rhs of the comparison is a product with den as a factor
         for side in f.ch(j):
             s = f.strip(side)
